@@ -151,7 +151,7 @@ Qed.
 Lemma parse_digits : forall s, s <> [] -> Forall (fun c => is_digit c = true) s ->
   parse_int s = Some (digits_val 0 s).
 Proof.
-  intros s Hne H. unfold parse_int.
+  intros s Hne H. unfold parse_int, parse_int_sm.
   rewrite strip_none by (eapply Forall_impl; [|exact H]; apply digit_not_space).
   destruct s as [|c r]; [congruence|].
   inversion H as [|? ? Hc Hr]; subst.
@@ -169,7 +169,7 @@ Proof.
     set (f := S (Z.to_nat (Z.log2 (- z)))).
     assert (Hd : Forall (fun c => is_digit c = true) (pos_digits f (- z) [])) by (apply pos_digits_digits; lia).
     assert (Hne : pos_digits f (- z) [] <> []) by apply pos_digits_nonempty.
-    unfold parse_int.
+    unfold parse_int, parse_int_sm.
     rewrite strip_none.
     + rewrite int_body_digits by exact Hd. rewrite filter_digits by exact Hd.
       destruct (pos_digits f (- z) []) eqn:P; [congruence|].
